@@ -29,20 +29,29 @@ VEC_FUNCS = ["ges_pflegev_beitr_satz_arbeitnehmer", "kindergeld_m", "eink_st_y_s
 
 
 def gen_history(rng, n_ops):
-    hist, slots, sims = [], {}, []
+    hist, slots, sims, edits = [], {}, [], {}
     for _ in range(n_ops):
         r = rng.random()
         if not slots or r < 0.22:
             d = DATES[int(rng.integers(0, len(DATES)))]
+            if slots and rng.random() < 0.45:
+                d = slots[int(rng.choice(list(slots)))]  # a second environment for a date already in use
             s = len(slots)
             slots[s] = d
+            edits[s] = []
             hist.append(dict(op="env", slot=s, date=d))
-        elif r < 0.32:
+        elif r < 0.30 and any(int(slots[x][:4]) >= 2015 for x in slots):
+            s = int(rng.choice([x for x in slots if int(slots[x][:4]) >= 2015]))
+            g = GROUPS[int(rng.integers(0, len(GROUPS)))]
+            edits[s].append(g)
+            hist.append(dict(op="reform_inplace", slot=s, group=g))
+        elif r < 0.38:
             s = int(rng.choice(list(slots)))
             k = int(rng.integers(1, 5))
             hist.append(dict(op="vectorize", slot=s, functions=[VEC_FUNCS[i] for i in rng.choice(len(VEC_FUNCS), k, replace=False)]))
-        elif r < 0.45 and sims:
-            hist.append(dict(sims[int(rng.integers(0, len(sims)))]))  # repeat an earlier call
+        elif r < 0.50 and sims:
+            prev = sims[int(rng.integers(0, len(sims)))]  # repeat an earlier call (with the slot's current edits)
+            hist.append(dict(op="sim", slot=prev["slot"], call=dict(prev["call"], edited_groups=list(edits[prev["slot"]]))))
         else:
             s = int(rng.choice(list(slots)))
             d = slots[s]
@@ -55,7 +64,8 @@ def gen_history(rng, n_ops):
             call = dict(date=d, reform=reform,
                         pop=dict(seed=int(rng.integers(0, 4)), n_hh=int(rng.choice([3, 6])), corner=[None, "huge"][int(rng.integers(0, 2))]),
                         targets=tg, rounding=bool(rng.random() < 0.7), debug=bool(rng.random() < 0.2),
-                        form=str(rng.choice(["df", "dict", "dict_convert", "df_convert"])))
+                        form=str(rng.choice(["df", "dict", "dict_convert", "df_convert"])),
+                        edited_groups=list(edits[s]))
             op = dict(op="sim", slot=s, call=call)
             hist.append(op)
             sims.append(op)
@@ -122,12 +132,13 @@ def run_item(item):
     res["distinct_calls"] = len(by_call)
     for key, lst in by_call.items():
         call = json.loads(key)
-        single = _run_fresh([dict(op="env", slot=0, date=call["date"]), dict(op="sim", slot=0, call=call)])[1]
+        single = _run_fresh([dict(op="env", slot=0, date=call["date"]),
+                             dict(op="sim", slot=0, call=call, fresh_inplace=call.get("edited_groups", []))])[1]
         res["singles"] += 1
         i, dg, exc = lst[-1]
         if (single.get("digest"), single.get("exception")) != (dg, exc):
             prefix = [(h["op"], h.get("date") or h.get("functions") or (h.get("call") or {}).get("date")) for h in hist[:i]]
-            viol("history:differs_from_fresh_process" if not any(p[0] == "vectorize" for p in prefix) else "history:vectorize_then_setup",
+            viol("history:differs_from_fresh_process" if not any(p[0] == "vectorize" for p in prefix) else "history:differs_after_vectorize",
                  f"call at position {i} gives digest {dg}/{exc} after the prefix {prefix[-6:]} but {single.get('digest')}/"
                  f"{single.get('exception')} alone in a fresh interpreter", call=call)
     return res
